@@ -23,6 +23,29 @@ func (errDeadlock) Error() string {
 	return "simrt: deadlock: the only running goroutine waits for a lock that is already held (left locked by an earlier call)"
 }
 
+// NextSyncQuantum, set by a Chooser before it returns, makes the chosen task yield right
+// after its k-th modelled synchronisation operation from now (atomic operation, lock,
+// unlock, Once, pool Get/Put), i.e. at the step point that follows the statement performing
+// it -- the preemption points that separate two operations meant to be one (CHESS-style).
+var NextSyncQuantum int64
+
+// SyncOps counts modelled synchronisation operations executed under the scheduler.
+var SyncOps int64
+
+func syncPoint() {
+	if !schedActive || curTask == nil {
+		return
+	}
+	SyncOps++
+	t := curTask
+	if t.syncQ > 0 {
+		t.syncQ--
+		if t.syncQ == 0 {
+			t.quantum = 0 // yields at its next step point
+		}
+	}
+}
+
 func MutexLock(m *sync.Mutex) {
 	if !schedActive {
 		if SingleThreaded {
@@ -39,9 +62,11 @@ func MutexLock(m *sync.Mutex) {
 	}
 	SyncAcquire(unsafe.Pointer(m))
 	curTask.locks++
+	syncPoint()
 }
 
 func MutexUnlock(m *sync.Mutex) {
+	syncPoint()
 	if schedActive && curTask != nil && curTask.locks > 0 {
 		curTask.locks--
 	}
@@ -82,9 +107,11 @@ func RWLock(m *sync.RWMutex) {
 	SyncAcquire(unsafe.Pointer(m))
 	SyncAcquire(rclock(m))
 	curTask.locks++
+	syncPoint()
 }
 
 func RWUnlock(m *sync.RWMutex) {
+	syncPoint()
 	if schedActive && curTask != nil && curTask.locks > 0 {
 		curTask.locks--
 	}
@@ -107,10 +134,12 @@ func RWRLock(m *sync.RWMutex) {
 		blockYield()
 	}
 	SyncAcquire(unsafe.Pointer(m))
+	syncPoint()
 }
 
 // RWRUnlock: a later WRITER is ordered after this reader; other readers are not.
 func RWRUnlock(m *sync.RWMutex) {
+	syncPoint()
 	SyncRelease(rclock(m))
 	m.RUnlock()
 }
@@ -134,6 +163,7 @@ func OnceDo(o *sync.Once, f func()) {
 		}
 		blockYield()
 	}
+	syncPoint()
 	SyncAcquire(unsafe.Pointer(o))
 	o.Do(func() {
 		onceBusy[o] = curTask.id
@@ -187,6 +217,7 @@ func AtomicOp[T any](site uint32, p *T) {
 	SyncAcquire(obj)
 	SyncRelease(obj)
 	curTask.pending = append(curTask.pending, obj)
+	syncPoint()
 }
 
 // ---- sync.Pool ----
